@@ -258,3 +258,5 @@ _rep("C10", "zero-length blocks)", "zero-length blocks, tape assets that hand ou
 _rep("C12", "with the fast loader taking blocks", "with stops placed inside the sync pulses and the fast loader taking blocks")
 _rep("C14", "(besides the Q latch being clear unless the SZX says FSET)", "(besides the Q latch being clear unless the SZX says FSET, and the painted border being the file's)")
 _rep("C15", "then emulates 20 frames.", "then emulates 20 frames plus three of a program that polls the AY, keyboard, joystick and mouse ports.")
+
+_rep("C10", "tape assets that hand out a few bytes per read)", "tape assets that hand out a few bytes per read; the shortcut must take the same emulated time wherever the data lies)")
